@@ -264,7 +264,7 @@ func judge(run *ev.Run, unit int64, s *wit.Step, cell, storeKind string, trace [
 	} else if s.Ret != nil {
 		run.Violate(key("pre_storage_refusal_with_bytes"), fmt.Sprintf("%s: refusal %s returned bytes", cell, s.Class), unit, detail)
 	}
-	if unit == 7 && q.ProofKind == "correct" && q.Branch == 2 {
+	if q.ProofKind == "stored+1" && q.Branch == 2 && s.Pre.Size > 2 {
 		run.Sample(map[string]any{"cell": cell, "model": s.Class.String(), "got": got})
 	}
 }
